@@ -3,7 +3,18 @@
 
     fn slice_parse(constant_type: ConstantType, duration: i64) -> core::result::Result<Duration, String> {
         let calculated_duration = /*@SLICE duration_parse.calculated_duration*/;
-        Ok(calculated_duration)
+        match calculated_duration { Some(d) => Ok(d), None => Err(String::new()) }
+    }
+
+    // C01: no count, however large, may abort the evaluation (all i64 counts, every unit word)
+    #[kani::proof]
+    fn parse_never_panics() {
+        let n: i64 = kani::any();
+        let k: u8 = kani::any();
+        kani::assume(k >= 1 && k <= 11);
+        let ct = match ConstantType::from_u8(k) { Some(c) => c, None => { kani::assume(false); unreachable!() } };
+        let r = slice_parse(ct, n);
+        if let Ok(d) = r { assert!(d.num_seconds().checked_abs().is_some(), "OBL:accepted_duration_is_in_chrono_range"); }
     }
 
     // C10: 'N unit' denotes N times the unit's length (counts 0..10^6 as the property quantifies);
